@@ -108,6 +108,9 @@ def cases(ctx):
             if mine():
                 yield {"kind": "parity-sequence", "bits": bits, "hardware": hw, "strings": ["Z" + "I" * (len(bits) - 1), "Z" * len(bits)],
                        "fresh_zero": True}
+            if mine() and hw == "generic":
+                yield {"kind": "parity-sequence", "bits": bits, "hardware": hw, "strings": ["Z" * len(bits), "Z" + "I" * (len(bits) - 1), "-" + "Z" * len(bits)],
+                       "refused_first": True}
             if mine():
                 # ... and many measurements queued in ONE subroutine (single-letter strings measure the qubit itself, in place)
                 n_ = len(bits)
@@ -259,6 +262,7 @@ def _parity_sequence(ctx, case):
     bits, strings = case["bits"], case["strings"]
     p = Pipe(hardware=case["hardware"], max_qubits=len(bits) + 2, script=[], default_outcome=0)
     qs = []
+    bits = list(bits)
     try:
         with p.conn as conn:
             for b in bits:
@@ -267,6 +271,19 @@ def _parity_sequence(ctx, case):
                     q.X()
                 qs.append(q)
             handles = []
+            if case.get("refused_first"):
+                # the application first passes a handle it has already measured away: the call is refused - and leaves nothing of its
+                # circuit (an ancilla, basis changes, half of the CNOTs) behind for the calls that follow
+                from netqasm.sdk.toolbox import toffoli_gate
+                dead = Qubit(conn)
+                dead.measure()
+                for attempt in (lambda: parity_meas([qs[0], dead] + qs[2:], "X" * len(qs)), lambda: parity_meas(qs[:-1] + [dead], "-" + "Y" * len(qs)),
+                                lambda: toffoli_gate(qs[0], dead, qs[-1])):
+                    try:
+                        attempt()
+                        ctx.fail(case, f"{case['hardware']}: a toolbox call with a measured-away qubit handle was accepted")
+                    except Exception:
+                        ctx.count("toolbox_calls_refused_for_a_dead_handle")
             if case.get("fresh_zero"):
                 # the qubit on the lowest id is measured away and a fresh one takes its place; with nothing in between, a one-letter
                 # parity measurement of ANOTHER qubit follows (on NV that measurement needs the fresh qubit's place), then the
